@@ -1,3 +1,4 @@
+pub mod exec;
 pub mod lex;
 pub mod lexrec;
 pub mod table;
@@ -5,10 +6,18 @@ pub mod table;
 use crate::Verdict;
 use serde_json::Value as J;
 
+thread_local! {
+    static HELPER: std::cell::RefCell<Option<crate::Helper>> = std::cell::RefCell::new(None);
+}
+
 pub fn check(family: &str, rec: &J) -> Verdict {
     match family {
+        "rename" => exec::check_rename(rec),
+        "outcome" => exec::outcome(rec),
+        "determ" => HELPER.with(|h| exec::check_determ(rec, &mut h.borrow_mut())),
         "table" => table::check(rec),
         "lex" => lex::check_lex(rec),
+        "exec" => exec::check(rec),
         "total" => lex::check_total(rec),
         _ => Verdict {
             st: "toolerr",
